@@ -226,11 +226,13 @@ fn cmd_run(args: &[String]) -> i32 {
                 libc::pwrite(progress_fd, b.as_ptr() as *const _, 8, 0);
             }
         }
+        let spec = generate(prop, seed, i, thorough);
+        // the watchdog allows for the size of the schedule (giant growth runs, enumerations)
         #[cfg(not(miri))]
         unsafe {
-            libc::alarm(hang_secs);
+            let extra = (spec.ops.len() / 400) as u32 + if spec.mode.is_some() { 60 } else { 0 };
+            libc::alarm(hang_secs + extra);
         }
-        let spec = generate(prop, seed, i, thorough);
         let o = run_for_prop(prop, &spec, want_hash || hash_file.is_some());
         if want_hash || hash_file.is_some() {
             let mut h = 0xcbf2_9ce4_8422_2325u64;
